@@ -3,7 +3,9 @@ package main
 import (
 	"fmt"
 	"strings"
+	"time"
 
+	"github.com/my-cloud/ruthenium/validatornode/domain/clock"
 	"github.com/my-cloud/ruthenium/validatornode/domain/ledger"
 )
 
@@ -141,8 +143,29 @@ func runForkSuite(seed uint64, n int, out *Out, stats *Stats) {
 			kinds = append(kinds, name+rel)
 		}
 		before := w.host.AllBlocks()
-		res := w.rec.Update(w.now, peers)
+		roundNow, trueNow := w.now, w.now
+		if i%8 == 1 && w.set.Interval == int64(time.Second) {
+			// the round is driven as in main.go: a real Engine (period and sub-periods from the decoded
+			// settings) stamps it, the clock reads three quarters into the validation interval, and one
+			// more neighbor - its clock runs ahead - already serves the block of the next tick
+			early := NewNode(w.set, w.wallets[4].Addr)
+			early.Pool.Validate(before[0].Timestamp())
+			helperSync(early, w.now, []*Peer{honestPeer("10.0.0.1:10600", w.host)})
+			early.Pool.Validate(w.now + w.set.Interval)
+			if len(early.AllBlocks()) == len(before)+1 {
+				peers = append(peers, honestPeer(fmt.Sprintf("10.5.%d.99:10600", i%250), early))
+				kinds = append(kinds, "early>")
+				trueNow = w.now + 3*w.set.Interval/4
+				roundNow = engineStamp(w.set, w.now, trueNow)
+				stats.Count("forks/round stamped by a real engine, a neighbor one tick ahead")
+			}
+		}
+		res := w.rec.Update(roundNow, peers)
 		after := w.host.AllBlocks()
+		if len(after) > 0 && after[len(after)-1].Timestamp() > trueNow {
+			out.Violation("C04", id, fmt.Sprintf("future-adopted\tthe node's clock reads %d and it adopted a chain whose tip is dated %d (the round was stamped %d)", trueNow, after[len(after)-1].Timestamp(), roundNow))
+			out.Violation("C06", id, fmt.Sprintf("unverified\tthe node's clock reads %d and it adopted a chain whose tip is dated %d, which no verification at that time accepts", trueNow, after[len(after)-1].Timestamp()))
+		}
 		// the answer of an honest node (a chain produced by real nodes from wallet transactions that
 		// spend confirmed outputs only) may be set aside as a fork or as too short, never for its content
 		for k, p := range peers {
@@ -413,4 +436,28 @@ func isolationCase(w *World, id string, i int, out *Out, stats *Stats) {
 	if w.rec.Mon != nil {
 		w.rec.Mon.CheckChain(after, "after the isolation round")
 	}
+}
+
+// engineStamp: the timestamp a verification engine wired as in main.go (period ValidationTimer(),
+// VerificationsCountPerValidation() occurrences, the first skipped) hands to Blockchain.Update when
+// the clock reads trueNow; boundary is the last validation instant.
+func engineStamp(set *Settings, boundary, trueNow int64) int64 {
+	watch := &ScriptWatch{readings: []int64{boundary - int64(2*time.Millisecond), trueNow}, fallback: func() int64 { return trueNow }}
+	got := make(chan int64, 4)
+	var e *clock.Engine
+	e = clock.NewEngine(func(ts int64) {
+		select {
+		case got <- ts:
+		default:
+		}
+	}, watch, set.ValidationTimer(), set.VerificationsCountPerValidation(), 1)
+	go e.Start()
+	var ts int64
+	select {
+	case ts = <-got:
+	case <-time.After(5 * time.Second):
+		ts = trueNow
+	}
+	e.Stop()
+	return ts
 }
